@@ -1,0 +1,163 @@
+//go:build verif
+
+package hermes
+
+import (
+	"fmt"
+	"os"
+	"runtime"
+	"strconv"
+	"strings"
+	"sync"
+	"sync/atomic"
+	"time"
+)
+
+// Verification hooks (build tag "verif"): probes hand pointers to the live per-run
+// state to a process wide sink. Nothing here changes model behaviour unless a sink
+// is installed (in-process monitors) or VERIF_TRACE / VERIF_DELAYS are set.
+
+// VerifEvent is what a sink receives at a probe site.
+type VerifEvent struct {
+	Site   string
+	G      *GlobalVarsMain
+	W      *WaterSharedVars
+	N      *NitroSharedVars
+	C      *CropSharedVars
+	I      *InputSharedVars
+	Cfg    *Config
+	Args   map[string]string
+	Zeit   int
+	Subd   int
+	Wdt    float64
+	Steps  float64
+	Layer  int
+	Amount float64
+	Err    error
+}
+
+// VerifSinkFunc receives probe events (must be safe for concurrent use if runs are concurrent).
+type VerifSinkFunc func(ev *VerifEvent)
+
+var verifSink atomic.Pointer[VerifSinkFunc]
+
+// VerifSetSink installs (or, with nil, removes) the process wide sink.
+func VerifSetSink(f VerifSinkFunc) {
+	if f == nil {
+		verifSink.Store(nil)
+		return
+	}
+	verifSink.Store(&f)
+}
+
+type verifCtx struct {
+	g   *GlobalVarsMain
+	w   *WaterSharedVars
+	n   *NitroSharedVars
+	c   *CropSharedVars
+	i   *InputSharedVars
+	cfg *Config
+}
+
+func verifNewCtx(g *GlobalVarsMain, w *WaterSharedVars, n *NitroSharedVars, c *CropSharedVars, i *InputSharedVars) *verifCtx {
+	return &verifCtx{g: g, w: w, n: n, c: c, i: i}
+}
+
+func verifSetConfig(vc *verifCtx, cfg *Config) { vc.cfg = cfg }
+
+func verifProbe(vc *verifCtx, site string, zeit, subd int, wdt, steps float64) {
+	if s := verifSink.Load(); s != nil {
+		(*s)(&VerifEvent{Site: site, G: vc.g, W: vc.w, N: vc.n, C: vc.c, I: vc.i, Cfg: vc.cfg, Zeit: zeit, Subd: subd, Wdt: wdt, Steps: steps})
+	}
+}
+
+func verifRunEnd(vc *verifCtx, err error) {
+	if s := verifSink.Load(); s != nil {
+		(*s)(&VerifEvent{Site: "run_end", G: vc.g, W: vc.w, N: vc.n, C: vc.c, I: vc.i, Cfg: vc.cfg, Err: err})
+	}
+}
+
+func verifConfigRead(g *GlobalVarsMain, cfg *Config, argValues map[string]string) {
+	if s := verifSink.Load(); s != nil {
+		(*s)(&VerifEvent{Site: "config_read", G: g, Cfg: cfg, Args: argValues})
+	}
+}
+
+func verifNClamp(g *GlobalVarsMain, site string, z int, amount float64) {
+	if s := verifSink.Load(); s != nil {
+		(*s)(&VerifEvent{Site: "nclamp:" + site, G: g, Layer: z, Amount: amount})
+	}
+}
+
+func verifTick(site string) {
+	if s := verifSink.Load(); s != nil {
+		(*s)(&VerifEvent{Site: "tick:" + site})
+	}
+}
+
+// ---- event trace + seeded delays for the real binaries (VERIF_TRACE, VERIF_DELAYS) ----
+
+var (
+	verifTraceMu   sync.Mutex
+	verifTraceFile *os.File
+	verifSeq       atomic.Int64
+	verifDelaySeed uint64
+	verifDelayMax  int64 // microseconds, 0 = off
+	verifDelayCnt  atomic.Uint64
+)
+
+func init() {
+	if p := os.Getenv("VERIF_TRACE"); p != "" {
+		f, err := os.OpenFile(p, os.O_CREATE|os.O_APPEND|os.O_WRONLY, 0644)
+		if err == nil {
+			verifTraceFile = f
+		}
+	}
+	if d := os.Getenv("VERIF_DELAYS"); d != "" {
+		// <seed>:<max microseconds>
+		parts := strings.Split(d, ":")
+		if len(parts) == 2 {
+			seed, err1 := strconv.ParseUint(parts[0], 10, 64)
+			max, err2 := strconv.ParseInt(parts[1], 10, 64)
+			if err1 == nil && err2 == nil {
+				verifDelaySeed = seed
+				verifDelayMax = max
+			}
+		}
+	}
+}
+
+func verifTrace(kind string, id string) {
+	if verifTraceFile == nil {
+		return
+	}
+	verifTraceMu.Lock()
+	seq := verifSeq.Add(1)
+	fmt.Fprintf(verifTraceFile, "{\"seq\":%d,\"kind\":%q,\"id\":%q}\n", seq, kind, id)
+	verifTraceMu.Unlock()
+}
+
+func verifDelay(site string) {
+	if s := verifSink.Load(); s != nil {
+		(*s)(&VerifEvent{Site: "delay:" + site})
+	}
+	if verifDelayMax <= 0 {
+		return
+	}
+	n := verifDelayCnt.Add(1)
+	// splitmix64 over (seed, n, site length): deterministic per process and call index
+	x := verifDelaySeed + n*0x9E3779B97F4A7C15 + uint64(len(site))
+	x ^= x >> 30
+	x *= 0xBF58476D1CE4E5B9
+	x ^= x >> 27
+	x *= 0x94D049BB133111EB
+	x ^= x >> 31
+	switch x % 4 {
+	case 0:
+		// no delay
+	case 1:
+		runtime.Gosched()
+	default:
+		time.Sleep(time.Duration(int64(x>>8)%verifDelayMax) * time.Microsecond)
+	}
+}
